@@ -31,7 +31,9 @@ THEOREMS = [
     "C16_readd_refs_refuted",
     "C16_names_unique",
     "C16_names_unique_readd_refuted",
-    "C16_names_unique_same_batch_refuted",
+    "C16_names_unique_same_batch",
+    "C16_accepted_batch_names_distinct",
+    "C16_names_unique_after_rejected_batch_refuted",
     "C16_names_unique_inner_title_refuted",
     "C16_split_independent_partial",
 ]
@@ -259,6 +261,7 @@ def parse_delta(s):
     out["refs"] = {int(a): int(b) for a, b in (p.split(">") for p in f["refs"].split(",") if p)}
     out["sizes"] = [int(x) for x in f["sizes"].split(".")]
     out["ret"] = int(f["ret"])
+    out["err"] = int(f["err"])
     return out
 
 
@@ -269,7 +272,7 @@ def apply_delta(m, d):
         c.update(b)
         return c
     m = {"next": d["next"], "ent": mg(m["ent"], d["ent"]), "t2i": sorted(m["t2i"] + d["t2i"]),
-         "names": mg(m["names"], d["names"]), "refs": mg(m["refs"], d["refs"]), "ret": d["ret"]}
+         "names": mg(m["names"], d["names"]), "refs": mg(m["refs"], d["refs"]), "ret": d["ret"], "err": d["err"]}
     if [len(m["ent"]), len(m["t2i"]), len(m["names"]), len(m["refs"])] != d["sizes"]:
         m["next"] = -1      # the model dropped or duplicated a key: force a mismatch
     return m
@@ -319,7 +322,7 @@ def derive_call(nb, step, d0, rec):
                     ops.append(tentry(nb, e, kids_of(e)))          # reuse by name
                 else:
                     ops.append("TRef (%s)" % c_abs(r))             # a reference or a structural hit
-        return "AddType [%s]" % "; ".join(ops), (res["id"] if ok else None)
+        return "AddType [%s]" % "; ".join(ops), (res["id"] if ok else None), None
     # refs / root
     if ok:
         if len(rec["pre"]) != 1:
@@ -361,8 +364,11 @@ def derive_call(nb, step, d0, rec):
         scr = assigned if (j == 0 and (ok or done >= 1)) else []
         defs.append("mkDef %d [%s] (%s)" % (nb.key(inv[rid]), "; ".join(scr), ins))
     if not ok:
+        if res["r"] == "err" and "map to the same type name" in (res.get("msg") or ""):
+            # fix c22ef06: the MODEL has to find the colliding definition itself (batch_dup)
+            return "AddRefs [%s] [] None" % "; ".join(defs), None, 1
         partial = assigned if done == 0 else []
-        return "AddRefsErr [%s] %d [%s]" % ("; ".join(defs), done, "; ".join(partial)), None
+        return "AddRefsErr [%s] %d [%s]" % ("; ".join(defs), done, "; ".join(partial)), None, 1
     if n == 0 and assigned:
         raise TraceError("entries assigned by a batch without definitions")
     # break_cycles: slots re-pointed to boxes
@@ -388,7 +394,7 @@ def derive_call(nb, step, d0, rec):
     if step["op"] == "root" and res["id"] is not None:
         ret = "(Some %d)" % nb.key("#")
     call = "AddRefs [%s] [%s] %s" % ("; ".join(defs), "; ".join("(%d, %d%%nat)" % (pp, s) for _, pp, s in boxes), ret)
-    return call, res["id"]
+    return call, res["id"], 0
 
 
 def derive_history(steps, recs):
@@ -396,9 +402,9 @@ def derive_history(steps, recs):
     d0 = {"next_id": 1, "entries": {}, "name_to_id": {}, "ref_to_id": {}, "type_to_id": []}
     calls, rets = [], []
     for st, rec in zip(steps, recs):
-        c, r = derive_call(nb, st, d0, rec)
+        c, r, er = derive_call(nb, st, d0, rec)
         calls.append(c)
-        rets.append(r)
+        rets.append((r, er))
         d0 = rec["dump"]
     # projections are taken AFTER the whole history was numbered (same Numbering)
     projs = [proj(rec["dump"], nb) for rec in recs]
@@ -416,8 +422,11 @@ def compare_model(model_str, projs, rets):
             if m[f] != pj[f]:
                 return "call %d: %s differs: model %s impl %s" % (t, f, json.dumps(m[f], sort_keys=True)[:400],
                                                                  json.dumps(pj[f], sort_keys=True)[:400])
+        r, er = r
         if r is not None and m["ret"] != r:
             return "call %d: returned id differs: model %d impl %d" % (t, m["ret"], r)
+        if er is not None and m["err"] != er:
+            return "call %d: outcome differs: model err=%d impl err=%d" % (t, m["err"], er)
     return None
 
 
@@ -562,6 +571,9 @@ def dup_class(steps, recs, t, name):
     for tt in range(t + 1):
         for p in recs[tt]["pre"]:
             reserved |= set(range(p["base_id"], p["base_id"] + p["def_len"]))
+        if recs[tt]["res"]["r"] != "ok" and steps[tt]["op"] in ("refs", "root"):
+            b0 = recs[tt - 1]["dump"]["next_id"] if tt else 1
+            reserved |= {v for v in recs[tt]["dump"]["ref_to_id"].values() if v >= b0}
     cls = None
     for n, ids in byname.items():
         if len(ids) < 2 or (name is not None and n != name):
@@ -571,8 +583,10 @@ def dup_class(steps, recs, t, name):
         if len(set(calls.values())) > 1:
             # every entry of a LATER call must be a definition slot filled by convert_ref_type
             k = "C16-1" if all(i in reserved for i in ids if calls[i] > first) else None
+        elif recs[first]["res"]["r"] != "ok" and steps[first]["op"] in ("refs", "root"):
+            k = "C16-4"       # entries left behind by a batch that returned Err (no roll-back)
         elif all(i in reserved for i in ids):
-            k = "C16-2"       # two definitions of one batch with one type name
+            k = "C16-2"       # two definitions of one ACCEPTED batch with one type name (fixed by c22ef06)
         elif any(i in reserved for i in ids):
             k = "C16-3"       # a titled sub-schema of the same call took the name first
         else:
@@ -695,7 +709,7 @@ def run(ctx):
     maxlen = 8 if quick else 20
     corpus = load_corpus()
     hists = [{"steps": c["steps"], "settings": c.get("settings", {}), "corpus": c["file"],
-              "expect": c.get("expect", [])} for c in corpus]
+              "expect": c.get("expect", []), "must_reject": c.get("must_reject", [])} for c in corpus]
     for k in range(n_hist):
         hists.append({"steps": gen_history(rnd, maxlen), "seed_path": "%d/%d" % (ctx.seed, k)})
     ctx.log("histories: %d corpus + %d generated (max %d calls)" % (len(corpus), n_hist, maxlen))
@@ -783,6 +797,14 @@ def run(ctx):
                     unlisted.append(dict(v, history=steps, source=h.get("corpus", h.get("seed_path")),
                                          would_be_class=fid))
             if "corpus" in h:
+                for t in h.get("must_reject", []):
+                    if MUT == "impl-accepts-same-batch":
+                        recs[t]["res"] = {"r": "ok", "id": None}
+                    if recs[t]["res"]["r"] != "err":
+                        ctx.oblige("corpus %s: call %d is rejected at add time (regression case of a fix)" % (
+                            h["corpus"], t), False, json.dumps(recs[t]["res"]))
+                        unlisted.append({"kind": "fixed-defect-regressed", "step": t, "history": steps,
+                                         "source": h["corpus"], "result": recs[t]["res"]})
                 exp = set(h.get("expect", []))
                 if got != exp:
                     ctx.oblige("corpus %s reproduces exactly its listed findings" % h["corpus"], False,
@@ -794,7 +816,7 @@ def run(ctx):
         # ---- (a) replay of the chunk in Space.v
         if okm and exprs:
             try:
-                model = vlib.coq_eval_strings("c16", hdr, exprs, shard=max(4, len(exprs) // vlib.NCPU + 1))
+                model = vlib.coq_eval_strings("c16-%s-%d" % (ctx.tier, ctx.seed), hdr, exprs, shard=max(4, len(exprs) // vlib.NCPU + 1))
                 for (h, projs, rets), ms in zip(meta, model):
                     if MUT == "impl-name-not-registered" and "corpus" not in h and projs and projs[-1]["names"]:
                         projs[-1]["names"].pop(sorted(projs[-1]["names"])[0])
@@ -803,8 +825,8 @@ def run(ctx):
                     d = compare_model(ms, projs, rets)
                     n_replayed += 1
                     if d:
-                        mism.append({"history": h["steps"], "difference": d,
-                                     "source": h.get("corpus", h.get("seed_path"))})
+                        mism.append({"difference": d, "source": h.get("corpus", h.get("seed_path")),
+                                     "history": h["steps"]})
             except Exception as e:  # noqa
                 model_errors.append(str(e)[-2000:])
     ctx.evaluations += n_calls
